@@ -249,7 +249,10 @@ class BaseTemplate:
             )
         except RecursionError:
             raise
-        except BaseException:
+        except Exception:
+            # Exceptions outside the ``Exception`` hierarchy
+            # (KeyboardInterrupt, SystemExit, GeneratorExit) are not
+            # render errors; they must pass through as they are.
             cls, exc, tb = sys.exc_info()
             try:
                 errors = rcontext.get('__error__')
